@@ -703,3 +703,433 @@ def _c08_const_chunk(run, specs):
 EXPLAIN['C08'] = ('all operator forms are traced in one case each and z3 decides leaf-wise equality with the '
                   'reference form for all real values and presence patterns; constants/conversions: real part '
                   'is the float constant itself (EUF-identical), every derivative part zero or absent')
+
+
+# ---------------------------------------------------------------------------------------------
+# C06 (E1 part): the real part and every branch depend on real parts only
+# ---------------------------------------------------------------------------------------------
+def _c06_chunk(run, specs):
+    cases = trace(specs, 'c06', run.seed)
+    rng = random.Random(run.seed + 17)
+    for case in cases:
+        run.cases += 1
+        run.instantiations.add(case['shape'] + '<S>')
+        run.functions.add(case['kind'])
+        if not check_validation(run, case):
+            continue
+        terms = ir.dag_to_terms(case['dag'])
+        names = [n[1] for n in case['dag'] if n[0] == 'var']
+        for path in case['paths']:
+            res = path['result']
+            run.paths += 1
+            if 'panic' in res:
+                continue   # panics are the subject of C01/C09/C10 obligations
+            rv = revars_of(res, terms)
+            e1 = ir.EufEnc()
+            e2 = ir.EufEnc(suffix="'", shared_vars=rv)
+            s = run.solver()
+            diffs = []
+            what = []
+            for (n, leaves) in res['outputs']:
+                if leaves and leaves[0] is not None:
+                    t = terms[leaves[0]]
+                    diffs.append(e1.enc(t) != e2.enc(t))
+                    what.append(f'real part of {n}')
+            for c in path['conds']:
+                for t in (terms[c[1]], terms[c[2]]):
+                    diffs.append(e1.enc(t) != e2.enc(t))
+                    what.append(f'branch operand {str(t)[:60]}')
+            run.obligations += 1
+            if not diffs:
+                run.discharged += 1
+                continue
+            s.add(z3.Or(*diffs))
+            r = run.check(s)
+            if r == z3.unsat:
+                run.discharged += 1
+                run.case_keys.add(case_id(case))
+            elif r == z3.unknown:
+                run.inconclusive.append({'case': case_id(case), 'reason': 'EUF query undecided'})
+            else:
+                # which one depends on a derivative part: syntactic support, then native replay
+                bad = []
+                for (n, leaves) in res['outputs']:
+                    if leaves and leaves[0] is not None:
+                        sup = ir.support(terms[leaves[0]]) - rv
+                        if sup:
+                            bad.append((f'real part of {n}', sorted(sup)))
+                for c in path['conds']:
+                    sup = (ir.support(terms[c[1]]) | ir.support(terms[c[2]])) - rv
+                    if sup:
+                        bad.append((f'branch {c[0]}', sorted(sup)))
+                shape, kind, pres = spec_of(case)
+                reproduced = None
+                for attempt in range(8):
+                    base = {n: (0.3 + 0.5 * rng.random() if n in rv else rng.uniform(-2, 2)) for n in names}
+                    alt = dict(base)
+                    for n in names:
+                        if n not in rv:
+                            alt[n] = rng.uniform(-2, 2)
+                    r1 = native_run(shape, kind, pres, base)
+                    r2 = native_run(shape, kind, pres, alt)
+                    if ('panic' in r1) != ('panic' in r2):
+                        reproduced = {'a': base, 'b': alt, 'a_result': str(r1)[:200], 'b_result': str(r2)[:200]}
+                        break
+                    if 'panic' in r1:
+                        continue
+                    for (o1, o2) in zip(r1['outputs'], r2['outputs']):
+                        if o1[1] and o1[1][0] != o2[1][0]:
+                            reproduced = {'a': base, 'b': alt, 'output': o1[0], 're_a': o1[1][0], 're_b': o2[1][0]}
+                            break
+                    if reproduced is None and r1.get('flags') != r2.get('flags'):
+                        reproduced = {'a': base, 'b': alt, 'flags_a': r1.get('flags'), 'flags_b': r2.get('flags')}
+                    if reproduced:
+                        break
+                d = {'case': case_id(case), 'role': 'C06:' + case['kind'], 'depends_on': bad[:3],
+                     'obligation': 'real part / branch independent of derivative parts'}
+                if reproduced:
+                    d['native_f64'] = reproduced
+                    run.violations.append(d)
+                else:
+                    d['reason'] = 'dependence on a derivative part found by the solver did not change a native result'
+                    run.inconclusive.append(d)
+            # predicate / comparison flags must agree with the float predicate on every feasible path
+            bad_flags = [n for (n, b) in res.get('flags', []) if not b]
+            if res.get('flags'):
+                run.obligations += 1
+                if not bad_flags:
+                    run.discharged += 1
+                else:
+                    pctx = PathCtx(run, case, path, terms, [])
+                    sv = pctx.base_solver()
+                    rr = run.check(sv)
+                    if rr == z3.unsat:
+                        run.discharged += 1
+                        run.infeasible_paths += 1
+                    else:
+                        assign = model_assignment(sv.model(), names) if rr == z3.sat else {n: Fraction(1) for n in names}
+                        fa = {k: float(v) for k, v in assign.items()}
+                        nat = native_run(shape_of(case), case['kind'], int(case['pres']), fa)
+                        nb = [n for (n, b) in nat.get('flags', []) if not b]
+                        d = {'case': case_id(case), 'role': 'C06:' + case['kind'], 'inputs': fa,
+                             'obligation': f'predicate/comparison {bad_flags} decided by the real part',
+                             'native_f64_disagreeing_flags': nb}
+                        if nb:
+                            run.violations.append(d)
+                        else:
+                            d['reason'] = 'flag mismatch on a solver-feasible path did not reproduce natively'
+                            run.inconclusive.append(d)
+        if len(run.samples) < 3 and case['paths']:
+            run.sample({'case': case_id(case), 'paths': len(case['paths']),
+                        'query': 'exists two operand assignments equal on all real parts, different on derivative '
+                                 'parts, with a different real-part result or a different branch operand? (EUF)'})
+
+
+def shape_of(case):
+    return case['shape']
+
+
+def c06_e1(run):
+    rng = random.Random(run.seed)
+    shapes = shapes_for(run.tier)
+    specs = []
+    un = C01_FUNCS + ['neg', 'inv', 'sph_j0', 'sph_j1', 'sph_j2']
+    for sh in shapes:
+        full1 = (1 << ngroups(sh)) - 1
+        full2 = (1 << (2 * ngroups(sh))) - 1
+        full3 = (1 << (3 * ngroups(sh))) - 1
+        for f in un:
+            specs.append((sh, f'un:{f}', full1))
+        specs += [(sh, 'sincos', full1), (sh, 'powf', full1), (sh, 'log', full1), (sh, 'pred', full1)]
+        for n in (-3, 0, 1, 2, 7):
+            specs.append((sh, f'powi:{n}', full1))
+        for op in ('add', 'sub', 'mul', 'div'):
+            specs.append((sh, f'bin:{op}', full2))
+            specs.append((sh, f'scalar:{op}', full1))
+        specs += [(sh, 'atan2', full2), (sh, 'powd', full2), (sh, 'abs_sub', full2), (sh, 'mul_add', full3)]
+        if sh in ('Dual', 'Dual2', 'DualVec2', 'DualVecD2', 'Dual2Vec2', 'Dual2VecD2', 'Dual<Dual>', 'Dual2<Dual>'):
+            for p in presence_patterns(sh, 2, run.tier, rng, cap=4):
+                specs.append((sh, 'cmp', p))
+    parallel(run, _c06_chunk, [specs[i:i + 40] for i in range(0, len(specs), 40)])
+
+
+# ---------------------------------------------------------------------------------------------
+# C05 derivative drivers
+# ---------------------------------------------------------------------------------------------
+def _drv_specs(tier):
+    specs = []
+
+    def add(drv, dims, g_per_ret, nrets, extra=''):
+        pats = [0, (1 << g_per_ret) - 1] if g_per_ret else [0]
+        if g_per_ret > 1:
+            pats += [1, (1 << g_per_ret) - 2]
+        for pat in sorted(set(pats)):
+            one = 0
+            for q in range(nrets):
+                one |= pat << (q * g_per_ret)
+            pres = one | (one << (nrets * g_per_ret))
+            specs.append(('-', f'drv:{drv}:{dims}:probe{extra}', pres))
+        specs.append(('-', f'drv:{drv}:{dims}:err{extra}', 0))
+
+    for d in ('first', 'second', 'third', 'spd', 'tpd'):
+        add(d, '-', 0, 1)
+        specs.append(('-', f'drv:{d}:-:cubic', 0))
+    ns = [1, 2, 3] if tier == 'quick' else [1, 2, 3, 4]
+    for st in ('s', 'd'):
+        for n in ns:
+            add('gradient', f'{st}{n}', 1, 1)
+            add('hessian', f'{st}{n}', 2, 1)
+            if n <= 2 or tier == 'thorough' and n <= 3:
+                specs.append(('-', f'drv:gradient:{st}{n}:cubic', 0))
+                specs.append(('-', f'drv:hessian:{st}{n}:cubic', 0))
+    jac = [('s1x1', 1), ('s2x3', 3), ('s3x2', 2), ('d2x3', 3)] if tier == 'quick' else \
+        [('s1x1', 1), ('s2x3', 3), ('s3x2', 2), ('s2x2', 2), ('s3x1', 1), ('d2x3', 3), ('d3x2', 2), ('d1x2', 2)]
+    for dims, m in jac:
+        add('jacobian', dims, 1, m)
+        if dims in ('s2x3', 's1x1', 'd2x3', 'd1x2', 's2x2'):
+            specs.append(('-', f'drv:jacobian:{dims}:cubic', 0))
+    ph = ['s1x1', 's2x1', 's2x3', 'd2x2'] if tier == 'quick' else ['s1x1', 's2x1', 's1x2', 's2x2', 's2x3', 'd2x2', 'd2x3']
+    for dims in ph:
+        add('phess', dims, 3, 1)
+        if dims in ('s1x1', 's2x1', 's1x2', 'd2x2', 's2x2'):
+            specs.append(('-', f'drv:phess:{dims}:cubic', 0))
+    # third_partial_derivative_vec: all index triples for lengths <= 3 (quick: length 2 + samples of 3)
+    for n in (1, 2, 3):
+        triples = list(itertools.product(range(n), repeat=3))
+        if tier == 'quick' and n == 3:
+            triples = [(0, 1, 2), (2, 1, 0), (1, 1, 2), (2, 2, 2), (0, 2, 0)]
+        for t in triples:
+            ts = ','.join(map(str, t))
+            specs.append(('-', f'drv:tpdv:{n}:probe:{ts}', 0))
+            if n <= 2 or t in ((0, 1, 2), (1, 1, 2)):
+                specs.append(('-', f'drv:tpdv:{n}:cubic:{ts}', 0))
+        specs.append(('-', f'drv:tpdv:{n}:err:0,0,0', 0))
+    return specs
+
+
+def _c05_chunk(run, specs):
+    import sympy as sp
+    cases = trace(specs, 'c05', run.seed)
+    for case in cases:
+        run.cases += 1
+        k = case['kind'].split(':')
+        drv, dims, mode = k[1], k[2], k[3]
+        run.functions.add(drv + ('' if mode != 'err' else ' (try_ error path)'))
+        run.instantiations.add(f'{drv}:{dims}')
+        if not check_validation(run, case):
+            continue
+        terms = ir.dag_to_terms(case['dag'])
+        for path in case['paths']:
+            res = path['result']
+            role = f'C05:{drv}:{mode}'
+            if 'panic' in res:
+                run.violations.append({'case': case_id(case), 'role': role, 'obligation': 'driver must not panic',
+                                       'native_f64': res['panic'][:200]})
+                continue
+            outs = {n: algebra.leaves_terms(terms, l) for (n, l) in res['outputs']}
+            flags = dict(res['flags'])
+            run.obligations += 1
+            if all(flags.values()):
+                run.discharged += 1
+            else:
+                run.violations.append({'case': case_id(case), 'role': role,
+                                       'obligation': 'shape / error-token flags', 'flags': flags})
+            if mode == 'err':
+                run.paths += 1
+                continue
+            V = ir.var
+            obs = []
+            z = lambda t: t if t is not None else ZERO
+
+            def expect(name, want):
+                got = outs[name]
+                assert len(got) == len(want), (case['kind'], name, len(got), len(want))
+                for i, (a, b) in enumerate(zip(got, want)):
+                    obs.append((f'{name}#{i}', a, b))
+
+            def unit(cond):
+                return ONE if cond else ZERO
+            if mode == 'probe':
+                # ---- what the closure must receive, and what the driver must hand back
+                if drv in ('first', 'second', 'third'):
+                    npart = {'first': 2, 'second': 3, 'third': 4}[drv]
+                    expect('arg0', [V('x'), ONE] + [ZERO] * (npart - 2))
+                    pn = {'first': ['re', 'eps'], 'second': ['re', 'v1', 'v2'], 'third': ['re', 'v1', 'v2', 'v3']}[drv]
+                    ret = [V('ret.' + p) for p in pn]
+                    expect('out', ret)
+                    expect('try_out', ret)
+                elif drv == 'spd':
+                    expect('arg0', [V('x'), ONE, ZERO, ZERO])
+                    expect('arg1', [V('y'), ZERO, ONE, ZERO])
+                    ret = [V('ret.' + p) for p in ('re', 'eps1', 'eps2', 'eps1eps2')]
+                    expect('out', ret)
+                    expect('try_out', ret)
+                elif drv in ('tpd', 'tpdv'):
+                    pn = ['re', 'eps1', 'eps2', 'eps3', 'eps1eps2', 'eps1eps3', 'eps2eps3', 'eps1eps2eps3']
+                    if drv == 'tpd':
+                        for q, nm in enumerate('xyz'):
+                            expect(f'arg{q}', [V(nm)] + [unit(q == d) for d in range(3)] + [ZERO] * 4)
+                    else:
+                        n = int(dims)
+                        i, j, kk = [int(t) for t in k[4].split(',')]
+                        for q in range(n):
+                            expect(f'arg{q}', [V(f'x{q}'), unit(q == i), unit(q == j), unit(q == kk)] + [ZERO] * 4)
+                    ret = [V('ret.' + p) for p in pn]
+                    expect('out', ret)
+                    expect('try_out', ret)
+                elif drv == 'gradient':
+                    n = int(dims[1:])
+                    for q in range(n):
+                        expect(f'arg{q}', [V(f'x{q}')] + [unit(q == d) for d in range(n)])
+                    # the returned parts, absent ones read as zero
+                    pres_eps = outs['g']  # placeholders; expected built from names below
+                    retl = dict(res['inputs'])['ret']
+                    rett = algebra.leaves_terms(terms, retl)
+                    expect('f', [rett[0]])
+                    expect('g', [z(t) for t in rett[1:]])
+                    expect('try_f', [rett[0]])
+                    expect('try_g', [z(t) for t in rett[1:]])
+                elif drv == 'hessian':
+                    n = int(dims[1:])
+                    for q in range(n):
+                        expect(f'arg{q}', [V(f'x{q}')] + [unit(q == d) for d in range(n)] + [ZERO] * (n * n))
+                    rett = algebra.leaves_terms(terms, dict(res['inputs'])['ret'])
+                    g = [z(rett[1 + i]) for i in range(n)]
+                    H = [z(rett[1 + n + j * n + i]) for i in range(n) for j in range(n)]
+                    for pfx in ('', 'try_'):
+                        expect(pfx + 'f', [rett[0]])
+                        expect(pfx + 'g', g)
+                        expect(pfx + 'H', H)
+                elif drv == 'jacobian':
+                    n, m = [int(t) for t in dims[1:].split('x')]
+                    for q in range(n):
+                        expect(f'arg{q}', [V(f'x{q}')] + [unit(q == d) for d in range(n)])
+                    ins = dict(res['inputs'])
+                    rets = [algebra.leaves_terms(terms, ins[f'ret{a}']) for a in range(m)]
+                    for pfx in ('', 'try_'):
+                        expect(pfx + 'f', [rets[a][0] for a in range(m)])
+                        expect(pfx + 'J', [z(rets[a][1 + b]) for a in range(m) for b in range(n)])
+                elif drv == 'phess':
+                    m, n = [int(t) for t in dims[1:].split('x')]
+                    for q in range(m):
+                        expect(f'argx{q}', [V(f'x{q}')] + [unit(q == d) for d in range(m)] + [ZERO] * (n + m * n))
+                    for q in range(n):
+                        expect(f'argy{q}', [V(f'y{q}')] + [ZERO] * m + [unit(q == d) for d in range(n)] + [ZERO] * (m * n))
+                    rett = algebra.leaves_terms(terms, dict(res['inputs'])['ret'])
+                    fx = [z(rett[1 + i]) for i in range(m)]
+                    fy = [z(rett[1 + m + j]) for j in range(n)]
+                    fxy = [z(rett[1 + m + n + j * m + i]) for i in range(m) for j in range(n)]
+                    for pfx in ('', 'try_'):
+                        expect(pfx + 'f', [rett[0]])
+                        expect(pfx + 'fx', fx)
+                        expect(pfx + 'fy', fy)
+                        expect(pfx + 'fxy', fxy)
+            else:
+                # ---- cubic closure: end-to-end derivative values against sympy
+                snames = [n for (n, _v) in res['scalars']]
+                coef = [n for n in snames if n.startswith('c')]
+                xn = [n for n in snames if not n.startswith('c')]
+                xs = [sp.Symbol(n, real=True) for n in xn]
+                env = {s: ir.var(s.name) for s in xs}
+
+                def poly(prefix):
+                    p = 0
+                    for cn in coef:
+                        pf, *ex = cn.split('_')
+                        if pf != prefix:
+                            continue
+                        cs = sp.Symbol(cn, real=True)
+                        env[cs] = ir.var(cn)
+                        mon = cs
+                        for s_, e in zip(xs, ex):
+                            mon = mon * s_ ** int(e)
+                        p = p + mon
+                    return p
+
+                def D(p, *idx):
+                    for i in idx:
+                        p = sp.diff(p, xs[i])
+                    return jets.sympy_to_ir(sp.expand(p), env)
+                if drv in ('first', 'second', 'third'):
+                    p = poly('c')
+                    order = {'first': 1, 'second': 2, 'third': 3}[drv]
+                    expect('out', [D(p, *([0] * o)) for o in range(order + 1)])
+                elif drv == 'spd':
+                    p = poly('c')
+                    expect('out', [D(p), D(p, 0), D(p, 1), D(p, 0, 1)])
+                elif drv == 'tpd':
+                    p = poly('c')
+                    expect('out', [D(p), D(p, 0), D(p, 1), D(p, 2), D(p, 0, 1), D(p, 0, 2), D(p, 1, 2), D(p, 0, 1, 2)])
+                elif drv == 'tpdv':
+                    p = poly('c')
+                    i, j, kk = [int(t) for t in k[4].split(',')]
+                    expect('out', [D(p), D(p, i), D(p, j), D(p, kk), D(p, i, j), D(p, i, kk), D(p, j, kk),
+                                   D(p, i, j, kk)])
+                elif drv == 'gradient':
+                    p = poly('c')
+                    n = len(xs)
+                    expect('f', [D(p)])
+                    expect('g', [D(p, i) for i in range(n)])
+                elif drv == 'hessian':
+                    p = poly('c')
+                    n = len(xs)
+                    expect('f', [D(p)])
+                    expect('g', [D(p, i) for i in range(n)])
+                    expect('H', [D(p, i, j) for i in range(n) for j in range(n)])
+                elif drv == 'jacobian':
+                    n, m = [int(t) for t in dims[1:].split('x')]
+                    ps = [poly(f'c{a}') for a in range(m)]
+                    expect('f', [D(ps[a]) for a in range(m)])
+                    expect('J', [D(ps[a], b) for a in range(m) for b in range(n)])
+                elif drv == 'phess':
+                    m, n = [int(t) for t in dims[1:].split('x')]
+                    p = poly('c')
+                    expect('f', [D(p)])
+                    expect('fx', [D(p, i) for i in range(m)])
+                    expect('fy', [D(p, m + j) for j in range(n)])
+                    expect('fxy', [D(p, i, m + j) for i in range(m) for j in range(n)])
+            pctx = PathCtx(run, case, path, terms, [])
+            decide_path(run, case, pctx, obs, role, revars=None, split=False)
+        if len(run.samples) < 4 and mode != 'err':
+            run.sample({'case': case_id(case), 'mode': mode,
+                        'obligations': 'probe: closure arguments are (x_i, unit seed e_i), returned tuple/vector/'
+                                       'matrix entries are exactly the returned parts in the documented '
+                                       'orientation; cubic: outputs == sympy partial derivatives of the generic cubic',
+                        'outputs': [n for (n, _l) in case['paths'][0]['result'].get('outputs', [])]})
+
+
+def c05(run):
+    specs = _drv_specs(run.tier)
+    run.bounds = {'input length n': '1..3 (quick) / 1..4 (thorough), static and dynamic',
+                  'output length m': '1..3, m != n included', 'index triples': 'all for length <= 2 (quick), '
+                  '<= 3 (thorough)', 'outside': 'n = 0, n > 4, m > 3 (the drivers are dimension-generic nalgebra '
+                  'iteration); closures other than the probe and the generic cubic (covered by C03 + the probe)'}
+    parallel(run, _c05_chunk, [specs[i:i + 12] for i in range(0, len(specs), 12)])
+
+
+EXPLAIN['C05'] = ('each of the 20 drivers is executed over the symbolic scalar with a probe closure (asserting the '
+                  'seeds it receives, returning fresh variables in every part) and with a generic cubic with '
+                  'symbolic coefficients; z3 decides every returned entry against the expected variable / the '
+                  'sympy partial derivative; try_ variants: error token returned unchanged, Ok values identical')
+
+
+def c06(run):
+    c06_e1(run)
+    from . import kani
+    kani.run_group(run, 'C06')
+
+
+def c09(run):
+    c09_e1(run)
+    from . import kani
+    kani.run_group(run, 'C09')
+
+
+EXPLAIN['C06'] = ('E1: for every operation and path, an EUF query over two copies of the traced DAG (real parts '
+                  'shared, derivative parts independent) shows that no real-part result and no branch operand '
+                  'depends on a derivative part; predicate/comparison agreement flags hold on every feasible path. '
+                  'E2 (Kani): comparison operators, predicates and min/max/clamp on f64 bit patterns incl. NaN, '
+                  'signed zeros and infinities; plain-float interface forwards to std (UF stubs)')
+EXPLAIN['C09'] = ('E1: powi for listed exponents incl. +-2^30, powf with a symbolic real exponent on every '
+                  'special-case path, powd, all against x^n (sympy) for all bases in the domain; E2 (Kani): all '
+                  'i32 exponents |n| <= 2^30 for the integer coefficient arithmetic')
